@@ -150,6 +150,9 @@ class _Impl:
         (cf,) = _default_cache(d)
         full = (d / cf).read_bytes()
         n = len(full)
+        warm = _load(loader, base, {})        # a successful load from the intact cache precedes the crash, as in a long-lived session
+        if _sig(warm) != _sig(ref):
+            return {'n': n, 'res': [[-1, False, True, None]]}
         ks = [k for k in range(0, n, case['stride'])] + ([k for k in range(max(0, n - 40), n)] if case['stride'] > 1 else [])
         ks = sorted(set(ks))
         ks = [k for i, k in enumerate(ks) if i % case['nchunk'] == case['chunk']]
@@ -260,7 +263,7 @@ class _Impl:
         r = np.random.default_rng(case['seed'])
         T, na = int(r.integers(1, 8)), int(r.integers(1, 5))
         coords = r.random((T, na, 3)) * 3 - 1
-        t = synth.make_traj([[5, 0, 0], [1, 6, 0], [0, 1, 7]], ['Li'] * na, coords, time_step=float(r.random()) * 1e-15)
+        t = synth.make_traj([[5, 0, 0], [1, 6, 0], [0, 1, 7]], ['Li'] * na, coords, time_step=float(r.random()) * 1e-15, mode='asis')
         mode = int(r.integers(0, 3))
         if mode == 1:
             t.to_displacements()
@@ -270,7 +273,16 @@ class _Impl:
         t.to_cache(d / 'x.cache')
         saved_unchanged = _rawsig(t) == before
         t2 = Trajectory.from_cache(d / 'x.cache')
-        return {'identical': _rawsig(t2) == before and _sig(t) == _sig(t2) and type(t2) is type(t), 'saved_unchanged': saved_unchanged, 'mode': mode}
+        identical = _rawsig(t2) == before and _sig(t) == _sig(t2) and type(t2) is type(t)
+        # the same file is then overwritten with another trajectory: loading it must give the new one
+        other = synth.make_traj([[5, 0, 0], [1, 6, 0], [0, 1, 7]], ['Li'] * na, r.random((T + 1, na, 3)), time_step=1e-15, mode='asis')
+        want_other = _rawsig(other)
+        other.to_cache(d / 'x.cache')
+        resave_ok = _rawsig(Trajectory.from_cache(d / 'x.cache')) == want_other
+        # and what was loaded earlier is an object of its own: converting it does not affect a later load
+        _ = t2.displacements
+        again_ok = _rawsig(Trajectory.from_cache(d / 'x.cache')) == want_other
+        return {'resave_ok': resave_ok, 'again_ok': again_ok, 'identical': identical, 'saved_unchanged': saved_unchanged, 'mode': mode}
 
 
 def oracle(case, out):
@@ -304,6 +316,10 @@ def oracle(case, out):
     elif kind == 'roundtrip':
         if not out['identical']:
             fs.append(('cache/roundtrip', f'to_cache / from_cache does not return a trajectory identical to the one that was saved (storage mode {out.get("mode")}: 0 as built, 1 displacements, 2 positions)'))
+        if out.get('resave_ok') is False:
+            fs.append(('cache/stale-after-resave', 'after another trajectory was saved to the same cache file, from_cache still returns the earlier one'))
+        if out.get('again_ok') is False:
+            fs.append(('cache/loads-share-state', 'a second from_cache of an untouched file differs from the first (the earlier loaded object had been converted in place)'))
         if out.get('saved_unchanged') is False:
             fs.append(('cache/save-alters-object', f'to_cache changed the stored state of the trajectory it saved (storage mode {out.get("mode")})'))
     return fs
